@@ -18,6 +18,10 @@ use std::cell::RefCell;
 pub enum Case {
     Html(TreeCase),
     Xml { chunks: Vec<String> },
+    /// like Html/Xml, but a "script" runs at every script pause: action k detaches the
+    /// k-th ancestor of the script element from its parent (0 = nothing)
+    HtmlScripted { tree: TreeCase, actions: Vec<u8> },
+    XmlScripted { chunks: Vec<String>, actions: Vec<u8> },
 }
 
 struct Collect(RefCell<Vec<Id>>);
@@ -28,14 +32,87 @@ impl Tracer for Collect {
     }
 }
 
-pub fn check(case: &Case, st: &mut Stats) -> Result<(), String> {
-    st.eval();
-    let mut mattered_total = 0usize;
-    let mut collected_total = 0usize;
-    let mut collections = 0usize;
-    let (gc_dom, plain_dom) = match case {
-        Case::Html(tc) => {
-            let (gc, _, _) = drive(ModelDom::new(), &tc.cfg, &tc.chunks, |parser, pause, handle, _| {
+/// The simulated script: detach the k-th ancestor of the script element (never the
+/// root element or the document).  Identical in the collecting and the plain run.
+fn run_script(dom: &ModelDom, script: Id, action: u8) -> bool {
+    if action == 0 {
+        return false;
+    }
+    let target = {
+        let nodes = dom.nodes.borrow();
+        let mut cur = script;
+        let mut ok = true;
+        for _ in 0..action {
+            match nodes[cur].parent {
+                Some(p) => cur = p,
+                None => {
+                    ok = false;
+                    break;
+                },
+            }
+        }
+        // not the document, not a direct child of the document (root element)
+        if ok && cur != DOC && nodes[cur].parent.map(|p| p != DOC).unwrap_or(false) {
+            Some(cur)
+        } else {
+            None
+        }
+    };
+    match target {
+        Some(t) => {
+            use html5ever::tree_builder::TreeSink;
+            let before = dom.calls.get();
+            dom.remove_from_parent(&t);
+            let _ = before;
+            true
+        },
+        None => false,
+    }
+}
+
+struct RunOut {
+    dom: ModelDom,
+    collections: usize,
+    collected: usize,
+    mattered: usize,
+    detached: usize,
+}
+
+fn run_case(case: &Case, gc: bool) -> RunOut {
+    let collections = std::cell::Cell::new(0usize);
+    let collected = std::cell::Cell::new(0usize);
+    let mattered = std::cell::Cell::new(0usize);
+    let detached = std::cell::Cell::new(0usize);
+    let pause_no = std::cell::Cell::new(0usize);
+    let (actions, html): (Vec<u8>, bool) = match case {
+        Case::HtmlScripted { actions, .. } => (actions.clone(), true),
+        Case::XmlScripted { actions, .. } => (actions.clone(), false),
+        Case::Html(_) => (vec![], true),
+        Case::Xml { .. } => (vec![], false),
+    };
+    let action_at = |n: usize| -> u8 {
+        if actions.is_empty() {
+            0
+        } else {
+            actions[n % actions.len()]
+        }
+    };
+    let dom = if html {
+        let tc = match case {
+            Case::Html(tc) => tc,
+            Case::HtmlScripted { tree, .. } => tree,
+            _ => unreachable!(),
+        };
+        let (dom, _, _) = drive(ModelDom::new(), &tc.cfg, &tc.chunks, |parser, pause, handle, _| {
+            let sink = &parser.tokenizer.sink.sink;
+            if let (Pause::Script, Some(h)) = (pause, handle) {
+                let a = action_at(pause_no.get());
+                pause_no.set(pause_no.get() + 1);
+                if run_script(sink, *h, a) {
+                    detached.set(detached.get() + 1);
+                }
+            }
+            if gc {
                 let tracer = Collect(RefCell::new(vec![]));
                 parser.tokenizer.sink.trace_handles(&tracer);
                 let mut roots = tracer.0.into_inner();
@@ -43,51 +120,99 @@ pub fn check(case: &Case, st: &mut Stats) -> Result<(), String> {
                 if let (Pause::Script, Some(h)) = (pause, handle) {
                     roots.push(*h); // the caller holds the script element it was handed
                 }
-                let (c, m) = parser.tokenizer.sink.sink.collect(&roots);
-                collected_total += c;
-                mattered_total += m;
-                collections += 1;
-            });
-            let (plain, _, _) = drive(ModelDom::new(), &tc.cfg, &tc.chunks, |_, _, _, _| {});
-            (gc, plain)
-        },
-        Case::Xml { chunks: ch } => {
-            let cfg = XmlCfg::default();
-            let (gc, _) = drive_xml(ModelDom::new(), &cfg, ch, |parser| {
+                let (c, m) = sink.collect(&roots);
+                collected.set(collected.get() + c);
+                mattered.set(mattered.get() + m);
+                collections.set(collections.get() + 1);
+            }
+        });
+        dom
+    } else {
+        let ch = match case {
+            Case::Xml { chunks } => chunks,
+            Case::XmlScripted { chunks, .. } => chunks,
+            _ => unreachable!(),
+        };
+        let cfg = XmlCfg::default();
+        let (dom, _) = drive_xml(ModelDom::new(), &cfg, ch, |parser, handle| {
+            let sink = &parser.tokenizer.sink.sink;
+            if let Some(h) = handle {
+                let a = action_at(pause_no.get());
+                pause_no.set(pause_no.get() + 1);
+                if run_script(sink, *h, a) {
+                    detached.set(detached.get() + 1);
+                }
+            }
+            if gc {
                 let tracer = Collect(RefCell::new(vec![]));
                 parser.tokenizer.sink.trace_handles(&tracer);
                 let mut roots = tracer.0.into_inner();
                 roots.push(DOC);
-                let (c, m) = parser.tokenizer.sink.sink.collect(&roots);
-                collected_total += c;
-                mattered_total += m;
-                collections += 1;
-            });
-            let (plain, _) = drive_xml(ModelDom::new(), &cfg, ch, |_| {});
-            (gc, plain)
-        },
+                if let Some(h) = handle {
+                    roots.push(*h);
+                }
+                let (c, m) = sink.collect(&roots);
+                collected.set(collected.get() + c);
+                mattered.set(mattered.get() + m);
+                collections.set(collections.get() + 1);
+            }
+        });
+        dom
     };
-    if let Some(v) = gc_dom.violations.borrow().iter().find(|v| v.contains("already collected")) {
+    RunOut { dom, collections: collections.get(), collected: collected.get(), mattered: mattered.get(), detached: detached.get() }
+}
+
+pub fn check(case: &Case, st: &mut Stats) -> Result<(), String> {
+    st.eval();
+    let g = run_case(case, true);
+    let p = run_case(case, false);
+    if let Some(v) = g.dom.violations.borrow().iter().find(|v| v.contains("already collected")) {
         return Err(format!(
             "the tree builder used a node that trace_handles did not report and that was not connected to a reported node: {v}"
         ));
     }
-    let a = model_canon(&plain_dom, DOC, CanonOpts::default());
-    let b = model_canon(&gc_dom, DOC, CanonOpts::default());
+    let a = model_canon(&p.dom, DOC, CanonOpts::default());
+    let b = model_canon(&g.dom, DOC, CanonOpts::default());
     if a != b {
         return Err(format!("tree of the collecting run differs from the GC-free run: {}", first_diff(&a, &b)));
     }
-    if collections > 0 {
-        st.label_n("collections run", collections as u64);
+    // the detached subtrees must be identical too (same arena ids in both runs)
+    if g.detached > 0 {
+        let np = p.dom.nodes.borrow().len();
+        let ng = g.dom.nodes.borrow().len();
+        if np != ng {
+            return Err(format!("collecting run created {ng} nodes, GC-free run {np}"));
+        }
+        for id in 0..np {
+            let (pp, pk) = {
+                let n = p.dom.nodes.borrow();
+                (n[id].parent, n[id].children.clone())
+            };
+            let (gp, gk, coll) = {
+                let n = g.dom.nodes.borrow();
+                (n[id].parent, n[id].children.clone(), n[id].collected)
+            };
+            if !coll && (pp != gp || pk != gk) {
+                return Err(format!("node #{id} has different links in the collecting run (parent {gp:?} children {gk:?}) and the GC-free run (parent {pp:?} children {pk:?})"));
+            }
+        }
     }
-    if collected_total > 0 {
+    if g.collections > 0 {
+        st.label_n("collections run", g.collections as u64);
+    }
+    if g.collected > 0 {
         st.label("some node was collected");
     }
-    if mattered_total > 0 {
+    if g.detached > 0 {
+        st.label("a script detached an ancestor of the script element");
+    }
+    if g.mattered > 0 {
         st.label(match case {
             Case::Html(tc) if tc.cfg.ctx.is_some() => "fragment: a traced handle was disconnected from the document",
             Case::Html(_) => "document: a traced handle was disconnected from the document",
             Case::Xml { .. } => "xml: a traced handle was disconnected from the document",
+            Case::HtmlScripted { .. } => "html+script: a traced handle was disconnected from the document",
+            Case::XmlScripted { .. } => "xml+script: a traced handle was disconnected from the document",
         });
         st.nontrivial(hash64(case), || serde_json::to_value(case).unwrap());
     }
@@ -95,6 +220,39 @@ pub fn check(case: &Case, st: &mut Stats) -> Result<(), String> {
 }
 
 pub fn decode(s: &mut Src) -> Case {
+    if s.chance(40) {
+        // XML with script elements and a detaching script
+        let d = gxml::gen_xml(s, 10);
+        let mut text = d.text;
+        let k = s.range(1, 3);
+        for _ in 0..k {
+            let cs: Vec<char> = text.chars().collect();
+            // insert after some '>' so that it lands in element content
+            let gts: Vec<usize> = cs.iter().enumerate().filter(|(_, c)| **c == '>').map(|(i, _)| i + 1).collect();
+            let at = if gts.is_empty() { cs.len() } else { gts[s.below(gts.len())] };
+            let ins = *s.pick(&["<script/>", "<script></script>", "<script>x</script>t", "<a><script/>u<b/></a>"]);
+            text = cs[..at].iter().collect::<String>() + ins + &cs[at..].iter().collect::<String>();
+        }
+        let n = text.chars().count();
+        let cuts = chunks::gen_cuts(s, n);
+        let actions = (0..3).map(|_| s.below(4) as u8).collect();
+        return Case::XmlScripted { chunks: chunks::chunk_str(&text, &cuts), actions };
+    }
+    if s.chance(60) {
+        let mut tc = gen_tree_case(s, true, 30);
+        let k = s.range(1, 3);
+        for _ in 0..k {
+            let cs: Vec<char> = tc.input.chars().collect();
+            let at = s.below(cs.len() + 1);
+            let ins = *s.pick(&["<script></script>", "<b><script>x</script>", "<p><i><script></script>y", "<table><tr><td><script></script>", "<svg><script></script>", "<a><div><script></script></div>z"]);
+            tc.input = cs[..at].iter().collect::<String>() + ins + &cs[at..].iter().collect::<String>();
+        }
+        let n = tc.input.chars().count();
+        let cuts = chunks::gen_cuts(s, n);
+        tc.chunks = chunks::chunk_str(&tc.input, &cuts);
+        let actions = (0..3).map(|_| s.below(5) as u8).collect();
+        return Case::HtmlScripted { tree: tc, actions };
+    }
     if s.chance(30) {
         let text = gxml::gen_xml_noisy(s, 10);
         let n = text.chars().count();
@@ -121,15 +279,17 @@ pub fn decode(s: &mut Src) -> Case {
 
 pub fn run(ctx: &Ctx) -> Report {
     let mut rep = Report::new(
-        "Grammar-generated HTML (documents and fragments under ~50 contexts; biased to adoption agency, frameset replacing a body that holds formatting/form elements, foster parenting, templates, never-inserted context elements) and XML, fed one character per chunk (so a collection runs at every possible suspension point, incl. Script and EncodingIndicator returns) into ModelDom in GC mode: after every feed() return the harness calls trace_handles, takes roots = traced handles + the document + the script element just handed to the caller, closes them under DOM connectedness (parent, children, template contents <-> host) and marks every other node collected. Oracle: no later sink call receives a collected handle (incl. same_node/elem_name), and the final tree equals the tree of a GC-free run. Non-trivial: at some collection a traced handle was not connected to the document (tracing mattered); distinct by case hash.",
+        "Grammar-generated HTML (documents and fragments under ~50 contexts; biased to adoption agency, frameset replacing a body that holds formatting/form elements, foster parenting, templates, never-inserted context elements) and XML, fed one character per chunk (so a collection runs at every possible suspension point, incl. Script and EncodingIndicator returns) into ModelDom in GC mode: after every feed() return the harness calls trace_handles, takes roots = traced handles + the document + the script element just handed to the caller, closes them under DOM connectedness (parent, children, template contents <-> host) and marks every other node collected. A simulated script runs at script pauses in the 'scripted' cases: it detaches the k-th ancestor of the script element from its parent (both in the collecting and in the GC-free run), so that open elements, formatting elements and pointers the builder still needs are no longer connected to the document. Oracle: no later sink call receives a collected handle (incl. same_node/elem_name), and the final tree equals the tree of a GC-free run. Non-trivial: at some collection a traced handle was not connected to the document (tracing mattered); distinct by case hash.",
     );
     report_known(ctx, &mut rep, &|v| replay(&ctx.strict_clone(), v));
     run_regressions(ctx, &mut rep, &|v| replay(&ctx.strict_clone(), v));
-    let out = run_random(ctx.seed, ctx.tier.pick(150_000, 6_000_000), 1500, decode, check);
+    let out = run_random(ctx.seed, ctx.tier.pick(1_000_000, 15_000_000), 1500, decode, check);
     rep.absorb(out);
     rep.need("document: a traced handle was disconnected from the document", 300);
     rep.need("fragment: a traced handle was disconnected from the document", 300);
     rep.need("some node was collected", 300);
+    rep.need("html+script: a traced handle was disconnected from the document", 300);
+    rep.need("xml+script: a traced handle was disconnected from the document", 300);
     rep
 }
 
